@@ -46,6 +46,11 @@ class InjectedInterrupt(KeyboardInterrupt, InjectedFault):
     pass
 
 
+class StepBudgetExceeded(Exception):
+    """Raised by the simulator when one public operation makes far more map calls than any terminating
+    search over this world can need (bounded progress): turns a hang into a reportable outcome."""
+
+
 def _tup(x):
     """JSON lists -> tuples (labels of edges, coordinates)."""
     if isinstance(x, list):
@@ -202,6 +207,7 @@ class SimMap(BaseMap):
         self.fired = {"dup": 0, "shuffle": 0, "abort": 0}
         self.last_injected = None
         self.start_query = None   # recorded answer of the first closeto query of a non-expanding match
+        self.call_budget = None   # per-operation bound on map calls (set by the session)
         self.digest = hashlib.sha256()
         self._bind()
 
@@ -233,6 +239,8 @@ class SimMap(BaseMap):
         k = self.calls
         self.calls += 1
         self.total_calls += 1
+        if self.call_budget is not None and self.calls > self.call_budget:
+            raise StepBudgetExceeded("operation %d made more than %d map calls" % (self.op_index, self.call_budget))
         if self.armed is not None and self.armed[0] == k:
             kind = self.armed[1]
             self.armed = None
@@ -423,6 +431,13 @@ class Session:
             with environment(self.clock, self.log_level) as handler:
                 self.backend = build_backend(self.world, self.backend_kind, self.scratch)
                 self.simmap = SimMap(self.backend, self.faults)
+                # bounded progress: per observation a terminating search needs at most one neighbour query per
+                # live state for the emitting step and two per state and non-emitting depth; a chain of
+                # non-emitting states cannot be deeper than the number of nodes (visited-node rule) or 100
+                n_nodes = len(self.world["nodes"])
+                n_states = n_nodes + sum(len(nb) for _, _, nb in self.world["nodes"])
+                n_obs = max(len(self.trace), len(self.trace2), 1)
+                self.simmap.call_budget = 4 * n_obs * (n_states + 1) * (2 * min(n_nodes + 1, 100) + 3) + 1000
                 for i, op in enumerate(self.doc["ops"]):
                     self._do(i, op)
                 self.log_records = handler.records
